@@ -56,6 +56,7 @@ class PeerView:
         self.received = b"".join(d for _, d in self.rx_log)
         self.sent = b"".join(d for _, d in self.tx_log)
         self.proxy_closed = conn.proxy_closed
+        self.opened_at = conn.opened_at
         self.fin_at = getattr(conn, "fin_at", None)
         self.rst_at = getattr(conn, "rst_at", None)
         self.closed_at = getattr(conn, "closed_at", None)
@@ -160,6 +161,17 @@ def run(sc, *, keep_log=False) -> Obs:
                 if edit:
                     msg.content = apply_edit(bytes(msg.content), edit)
 
+            if lat > 0 and rule.get("intercept"):
+                # the message is intercepted (as the Intercept addon / a user would) and resumed after `lat`
+                f.intercept()
+                pending_msg_hooks["n"] += 1
+
+                def resume():
+                    pending_msg_hooks["n"] -= 1
+                    do_edit()
+                    f.resume()
+                loop.call_later(lat, resume)
+                return None
             if lat > 0:
                 async def later():
                     pending_msg_hooks["n"] += 1
